@@ -16,12 +16,16 @@ BOUND = ("networks with <= 6(7) variables (exhaustive 1-variable, sampled 2-vari
          "attractor sets (build()) compared state by state; (declaration order) the same network (2-8 variables) built programmatically as a BooleanNetwork whose variables are "
          "DECLARED in another order (reversed / rotated / seeded shuffle), optionally with equivalent formulas or with one update function changed; both diagrams fully expanded, or one / both "
          "only partially (level-limited bfs, size-limited dfs, minimal-space expansion, root only): is_subgraph and is_isomorphic in both directions compared with the explicit "
-         "comparison of node spaces and edges")
+         "comparison of node spaces and edges; (declaration order, attractors) motif-avoidant, multi-attractor and oscillator x marker networks with 2-7 variables declared in "
+         "reversed / rotated / shuffled order (and renamed to names that sort differently after sanitising): attractor sets of both presentations compared state by state with "
+         "each other and with the brute-force attractors; (free inputs) networks with identity inputs are additionally presented as .aeon text in which those inputs have no "
+         "update function; (sanitising) the bad names include the four non-ASCII characters that case-fold to ASCII letters")
 RULE = "non-trivial = the full diagram has at least 3 nodes or the network has a non-fixed-point attractor"
 CASE_TIMEOUT = 60.0
 
-KINDS = ["rename", "reorder", "equivalent", "negate", "format_aeon", "format_sbml", "sanitize"]
-BAD_NAMES = ["a-b", "a_b", "a.b", "a b", "x{1}", "x_1_", "_x_1_", "é", "g+", "g-"]
+KINDS = ["rename", "reorder", "equivalent", "negate", "format_aeon", "format_sbml", "sanitize", "format_aeon_free_inputs"]
+# the last four contain the only non-ASCII characters that case-fold to ASCII letters (Kelvin sign, long s, dotless i, dotted capital I)
+BAD_NAMES = ["a-b", "a_b", "a.b", "a b", "x{1}", "x_1_", "_x_1_", "é", "g+", "g-", "\u212a_ch", "Ca\u017f", "x\u0131", "\u0130z"]
 
 
 ORDER_FIRST = families.norm("a, b; b, a; c, d | a; d, c; e, !e & c")  # the instance that revealed the shape
@@ -51,8 +55,37 @@ def order_cases(seed, tier):
             yield one(name, bnet, order, rng.random() < 0.4, pa, pb, k == 1 and rng.random() < 0.5, rng.randrange(1 << 30))
 
 
+ORDER_ATTRACTORS_FIRST = families.norm("m, (m & !p) | (!m & p); t, (t & !p) | (!t & p); p, (t & p) | (!t & !p); a, a")  # the instance that revealed the shape
+
+
+def order_attractor_cases(seed, tier):
+    """shape added after the seeded-change review: networks in which the candidate search has real work to do - a non-minimal node with a motif-avoidant
+    attractor, a minimal / unexpanded node with several complex attractors (families maa_nets, block_nets, neg_cycle_nets, maa_overlap_nets, cond nets) -
+    presented with a declaration order that differs from the name order (programmatic BooleanNetwork: reversed / rotated / seeded shuffles; names that
+    sort differently after sanitising): the ATTRACTORS (sets of build()) must be the same as for the text presentation and as the brute-force ones."""
+    def one(name, bnet, order, tseed, equivalent=False):
+        return {"net": name, "bnet": bnet, "kind": "declaration_order", "order": order, "equivalent": equivalent, "partial_a": None, "partial_b": None, "edit": False, "tseed": tseed,
+                "attractors": True}
+
+    nets = [("order_attractors_first", ORDER_ATTRACTORS_FIRST), ("maa_core", families.MAA_CORE), ("xnor2_src", families.union(families.XNOR2, families.sources(1)))]
+    nets += families.maa_nets() + [(f"cond{k}", families.cond_net(k)) for k in range(8)]
+    more = [x for four in zip(families.block_nets(seed, tier), families.neg_cycle_nets(seed, tier), families.maa_overlap_nets(seed, tier), families.marker_nets(seed, tier)) for x in four]
+    done = set()
+    for k, (name, bnet) in enumerate(nets + more):
+        n = len(families.variables(bnet))
+        if bnet in done or n > 7 or n < 2:
+            continue
+        done.add(bnet)
+        rng = random.Random(f"{seed}-{name}-order-att")
+        orders = ["reverse", "rotate", "shuffle", "shuffle"] if k < len(nets) else [rng.choice(["reverse", "rotate", "shuffle", "shuffle"])]
+        for order in orders:
+            yield one(name, bnet, order, rng.randrange(1 << 30), equivalent=rng.random() < 0.2)
+        if k < len(nets) or rng.random() < 0.5:
+            yield {"net": name, "bnet": bnet, "kind": "sanitize", "tseed": rng.randrange(1 << 30)}
+
+
 def cases(seed, tier):
-    yield from families.interleave((order_cases(seed, tier), 1), (transform_cases(seed, tier), 3))
+    yield from families.interleave((order_attractor_cases(seed, tier), 1), (order_cases(seed, tier), 6), (transform_cases(seed, tier), 18))
 
 
 def transform_cases(seed, tier):
@@ -155,6 +188,15 @@ def check_declaration_order(case):
         if got != ref:
             out.append(fail("is_subgraph_differs_from_node_edge_sets", "is_subgraph holds exactly if every node space and every edge of the one diagram is in the other, however the variables are declared",
                             f"{label}: {what}", observed=got, expected=ref))
+    if case.get("attractors") and not case["edit"] and case["partial_a"] is None and case["partial_b"] is None:
+        # the attractors (complete sets) reported for the two presentations: equal to each other and to the brute-force ones
+        attA, attB = observe(A)[4], observe(B)[4]
+        ref_att = sorted(sorted(tuple(sorted(net.state_dict(st).items())) for st in net.states(a)) for a in net.attractors())
+        if sorted(map(sorted, attA)) != sorted(map(sorted, attB)):
+            out.append(fail("attractors_differ", "the same attractors however the variables are declared", what, observed=len(attB), expected=len(attA)))
+        for label, att in (("text presentation", attA), (f"declaration order {order}", attB)):
+            if sorted(map(sorted, att)) != ref_att:
+                out.append(fail("attractors_differ_from_reference", "the attractors are the network's attractors", f"{label}: {what}", observed=len(att), expected=len(ref_att)))
     iso_ref = (na, ea) == (nb, eb)
     for label, x, y in (("A.is_isomorphic(B)", A, B), ("B.is_isomorphic(A)", B, A)):
         got = x.is_isomorphic(y)
@@ -189,6 +231,27 @@ def check_with_info(case):
     elif kind == "format_sbml":
         bn = BooleanNetwork.from_bnet(case["bnet"])
         B = SuccessionDiagram.from_rules(bn.to_sbml(), format="sbml")
+        mapping = {v: v for v in net.names}
+    elif kind == "format_aeon_free_inputs":
+        # identity inputs (x, x) written the way .aeon / .sbml files usually write inputs: a variable WITHOUT an update function
+        bn = BooleanNetwork.from_bnet(case["bnet"]).infer_valid_graph()
+        ident = [v for i, v in enumerate(net.names) if all(net.f(i, s) == ((s >> i) & 1) for s in range(net.N))]
+        keep = []
+        for ln in bn.to_aeon().splitlines():
+            w = ln.split()
+            if any(ln.startswith(f"${v}:") for v in ident) or (len(w) == 3 and w[0] == w[2] and w[0] in ident):
+                continue
+            keep.append(ln)
+        text = "\n".join(keep)
+        try:
+            declared = sorted(BooleanNetwork.from_aeon(text).variable_names()) if ident else None
+        except Exception:
+            declared = None
+        if declared != sorted(net.names):
+            text = bn.to_aeon()       # no identity input (or one nobody reads): the plain format case
+        else:
+            info["free_inputs"] = len(ident)
+        B = SuccessionDiagram.from_rules(text, format="aeon")
         mapping = {v: v for v in net.names}
     else:  # sanitize
         bn = BooleanNetwork.from_bnet(case["bnet"])
@@ -251,7 +314,7 @@ def check_with_info(case):
     ref_att = sorted(sorted(tuple(sorted(net.state_dict(s).items())) for s in net.states(a)) for a in net.attractors())
     if sorted(map(sorted, attA)) != ref_att:
         out.append(fail("attractors_differ_from_reference", "the attractors are the network's attractors", "original presentation", observed=len(attA), expected=len(ref_att)))
-    if kind in ("rename", "reorder", "equivalent", "format_aeon", "format_sbml") and not flips:
+    if kind in ("rename", "reorder", "equivalent", "format_aeon", "format_sbml", "format_aeon_free_inputs") and not flips:
         # is_isomorphic works across networks over the same variable names
         if kind != "rename" and not (A.is_isomorphic(B) and B.is_isomorphic(A)):
             out.append(fail("is_isomorphic_false", "is_isomorphic holds between the two presentations", what))
